@@ -218,7 +218,17 @@ class Function:
             return ("idx", self.term(ks[0]), self.term(ks[1]))
         if k == "ConditionalOperator":
             ks = self.kids(i)
-            return ("cond", self.term(ks[0]), self.term(ks[1]), self.term(ks[2]))
+            c, a, b = self.term(ks[0]), self.term(ks[1]), self.term(ks[2])
+            # one orientation: the condition is never an ==, >=, <= or a negation (c ? a : b is !c ? b : a)
+            if c[0] == "un" and c[1] == "!":
+                c, a, b = c[2], b, a
+            elif c[0] == "op" and c[1] in ("==", ">=", "<="):
+                if c[1] == "==" and c[2][0] == "size" and c[3] == ("const", 0):
+                    c = ("op", ">", c[2], c[3])
+                else:
+                    c = ("op", NEGATED_CMP[c[1]], c[2], c[3])
+                a, b = b, a
+            return ("cond", c, a, b)
         if k == "UnaryExprOrTypeTraitExpr":
             return ("sizeof", nd.get("arg_ct"))
         if k == "StringLiteral":
